@@ -166,6 +166,13 @@ struct Reporter {
     std::string curStream; // description of what the current case is (engine specific)
     std::function<std::string()> describeCase; // materialises the current case as JSON
 
+    // very long runs: the hash sets are spilled (counted, then emptied) so that memory stays bounded; the counts become
+    // sums over spills (a state seen in two spills is counted twice) and the driver is told not to union them
+    uint64_t statesSpilled = 0, distinctSpilled = 0;
+    void boundMemory() {
+        if (states.size() > 2000000) { statesSpilled += states.size(); states.clear(); }
+        if (distinct.size() > 2000000) { distinctSpilled += distinct.size(); distinct.clear(); }
+    }
     uint64_t digestXor = 0; // order-independent digest of every result (C17: must not depend on the build)
     void digest(const std::string &what) { digestXor ^= mix64(curCase + 1, hashStr(what)); }
     uint64_t &counter(const std::string &k) { return counters[k]; }
@@ -216,8 +223,8 @@ struct Reporter {
     }
     void write() {
         counters["digest_xor"] = digestXor >> 1; // keep it inside a signed 64-bit JSON integer
-        counters["distinct_cases"] = distinct.size();
-        counters["distinct_states"] = states.size();
+        counters["distinct_cases"] = distinct.size() + distinctSpilled;
+        counters["distinct_states"] = states.size() + statesSpilled;
         std::string o = "{\n \"counters\": {";
         bool first = true;
         for (auto &kv : counters) {
@@ -240,7 +247,16 @@ struct Reporter {
             fputs(o.c_str(), stdout);
         } else {
             auto dump = [&](const std::unordered_set<uint64_t> &set, const char *suffix) {
-                if (set.size() > 3000000) return;
+                if (set.size() > 3000000 || statesSpilled || distinctSpilled) {
+                    // too large to ship: an empty marker file larger than the driver's limit tells it to fall back to the sums
+                    FILE *sf = fopen((args.out + suffix).c_str(), "wb");
+                    if (sf) {
+                        fseek(sf, 24000001, SEEK_SET);
+                        fputc(0, sf);
+                        fclose(sf);
+                    }
+                    return;
+                }
                 std::vector<uint64_t> v(set.begin(), set.end());
                 FILE *sf = fopen((args.out + suffix).c_str(), "wb");
                 if (sf) {
@@ -279,6 +295,7 @@ void forCases(Reporter &R, uint64_t total, const char *tag, F fn) {
         if (i < resume) continue;
         R.progress(i, tag);
         fn(i);
+        R.boundMemory();
     }
 }
 
